@@ -263,15 +263,20 @@ def crash(v1: int, v2: int, k: int, ci: int) -> str:
     ci = pick(ci, len(CANDS))
     clean()
     died = False
-    steps = None
+    env = cachefs.Env(crash_after=k, torn=CANDS[ci])
     try:
-        cls, fail, env = check_definition(v1, {"crash_after": k, "torn": CANDS[ci]})
-        steps = env.trace
-        if fail:
-            clean()
-            return "FAIL sig=C16|first-definition|%%s" %% _kind(fail)
+        with env:
+            try:
+                define(v1)
+            except cachefs.Crash:
+                raise
+            except Exception as e:
+                clean()
+                return "FAIL sig=C16|first-definition|%%s" %% _kind("definition-raises-%%s" %% type(e).__name__)
     except cachefs.Crash:
         died = True
+        if ci != 0 and env.trace[-1] != "write":
+            assume(False)      # the torn length only matters when the dying step is a write: keep one representative
     if not died:
         clean()
         if ci != 0:
